@@ -17,7 +17,8 @@ LEVEL = "fault_enumeration"
 BUDGET = {"quick": 60, "thorough": 900}
 MIN_BUDGET = {"quick": 20, "thorough": 60}
 RULE = ("local backend; seeded history of 0-3 commits (treated as fully durable), then one operation under test (create, "
-        "append in three styles, two-append txn, delete file (+append), expire (+append), delete_snapshot, GC) executed "
+        "append in three styles, two-append txn, delete file (+append), expire (+append), delete_snapshot, GC; and 2-3 "
+        "writer THREADS SHARING ONE HANDLE or separate handles committing concurrently under a seeded scheduler) executed "
         "with a durability shadow attached to every os-level call: per-inode content captured at fsync(fd), per-"
         "directory name->inode map captured at fsync(dirfd). A power loss is evaluated after EVERY durable-state change "
         "and after every rename/unlink (i.e. at every prefix of the traced write / fsync / rename / dir-fsync sequence "
@@ -38,7 +39,7 @@ COMPONENTS = common.COMPONENTS
 EXPECT_PROBES = ["image_pointer_advanced", "image_pointer_old", "ack_durable", "image_materialised", "subset_image"]
 
 OPS = ["create", "append", "append_with", "append_explicit", "multi", "delete_file", "delete_file_append", "expire",
-       "expire_append", "delete_snapshot", "gc0"]
+       "expire_append", "delete_snapshot", "gc0", "shared_threads", "shared_threads", "separate_handles"]
 
 
 def gen(rng: random.Random, tier: str, idx: int) -> dict:
@@ -56,7 +57,11 @@ def gen(rng: random.Random, tier: str, idx: int) -> dict:
         if name.startswith("gc"):
             setup += [{"kind": "append", "tag": "sg", "n": 1}, {"kind": "delete_file", "tag": "sgd", "k": 0},
                       {"kind": "expire", "tag": "sge", "k": 99, "delta": 1}, {"kind": "sleep", "dt": 7200.0}]
-    return {"backend": "local", "op": name, "setup": setup, "subsets": 2 if tier == "quick" else 8,
+    conc = None
+    if name in ("shared_threads", "separate_handles"):
+        conc = {"n": rng.randint(2, 3), "ops": rng.randint(1, 2), "p": rng.choice([0.02, 0.1, 0.3, 0.6]),
+                "kinds": [rng.choice(["append", "append", "multi", "delete_file_append"]) for _ in range(6)]}
+    return {"backend": "local", "op": name, "setup": setup, "subsets": 2 if tier == "quick" else 8, "conc": conc,
             "materialise": tier != "quick" or idx % 5 == 0, "sub_seed": rng.randrange(1 << 30)}
 
 
@@ -104,7 +109,11 @@ def execute(plan: dict, scratch: str, replay: Optional[dict] = None) -> dict:
     if name != "create":
         ph0 = common.run_setup(scratch, "local", seed, list(plan.get("setup", [])))
         now = ph0.sim.now
-    ph = Phase(plan, scratch, "local", seed, core.Policy(), start=now + 1.0, max_steps=40000)
+    conc = plan.get("conc")
+    pol = core.RandomPolicy(seed ^ 0x16, conc["p"]) if conc else core.Policy()
+    if conc and replay is not None:
+        pol = core.ReplayPolicy(replay)
+    ph = Phase(plan, scratch, "local", seed, pol, start=now + 1.0, max_steps=60000)
     w, sim = ph.world, ph.sim
     os.makedirs(w.root, exist_ok=True)
     sh = Shadow(w.root)
@@ -145,6 +154,59 @@ def execute(plan: dict, scratch: str, replay: Optional[dict] = None) -> dict:
                 materialise.append(img)
     sh.on_change.append(on_change)
 
+    def ack_check(rec):
+        """at an acknowledgement the durable pointer must already name the acknowledged version (or a later one)"""
+        if rec["outcome"] != "ok" or not rec.get("flips"):
+            return
+        mine = ir.parse_hint(w.flips[rec["flips"][-1]]["new"])
+        img = sh.image("pessimistic")
+        stats["images"] += 1
+        durp = reader.pointer(ir.ImageView(img))
+        if mine is not None and (durp is None or durp[0] < mine[0]):
+            bad("U.ack_not_durable", f"{rec['actor']} {rec['op']['kind']} was acknowledged at version {mine[0]} but after a power "
+                                     f"loss the pointer names {durp}", "ack")
+        else:
+            sim.probe("ack_durable")
+        err = _check_image(reader, img, w.root, "pessimistic@ack")
+        if err:
+            bad("U.pointer_outruns_data", err, "ack")
+
+    if conc:
+        kinds = conc["kinds"]
+
+        def mkops(i):
+            out = []
+            for j in range(conc["ops"]):
+                k = kinds[(i * 2 + j) % len(kinds)]
+                if k == "append":
+                    out.append({"kind": "append", "tag": f"c{i}.{j}", "n": 1})
+                elif k == "multi":
+                    out.append({"kind": "multi", "tag": f"c{i}.{j}", "n": 1})
+                else:
+                    out.append({"kind": "delete_file", "tag": f"c{i}.{j}", "k": i, "with_append": True})
+            return out
+
+        def thread_body(ctx, ops):
+            for op in ops:
+                world.run_ops(ctx, [op])
+                mine = [h for h in w.history if h["actor"] == ctx.name]
+                ack_check(mine[-1])
+        if name == "shared_threads":
+            p0 = sim.proc("p0")
+            root_ctx = world.Ctx(w, "p0", lambda: w.open_table(create=False))
+
+            def init():
+                root_ctx.table
+                for i in range(conc["n"]):
+                    c2 = world.Ctx(w, f"t{i}", lambda: root_ctx.table)
+                    c2._table = root_ctx._table
+                    sim.spawn(p0, f"t{i}", lambda c2=c2, i=i: thread_body(c2, mkops(i)))
+            sim.spawn(p0, "p0/init", init)
+        else:
+            for i in range(conc["n"]):
+                c2 = world.Ctx(w, f"t{i}", lambda: w.open_table(create=False))
+                sim.spawn(sim.proc(f"p{i}"), f"t{i}", lambda c2=c2, i=i: thread_body(c2, mkops(i)))
+
     def body():
         if name == "create":
             ctx = world.Ctx(w, "ut", lambda: w.open_table(create=True))
@@ -167,12 +229,13 @@ def execute(plan: dict, scratch: str, replay: Optional[dict] = None) -> dict:
             err = _check_image(reader, img, w.root, "pessimistic@ack")
             if err:
                 bad("U.pointer_outruns_data", err, "ack")
-    sim.spawn(sim.proc("p0"), "ut", body)
+    if not conc:
+        sim.spawn(sim.proc("p0"), "ut", body)
     ph.run()
     sim.extra.pop("shadow", None)
     if sim.outcome == "ok":
         rec = w.history[-1] if w.history else None
-        if rec is not None and rec["outcome"] != "ok":
+        if not conc and rec is not None and rec["outcome"] != "ok":
             raise core.HarnessError(f"op under test failed: {rec.get('exc')} {rec.get('msg')}")
         # materialise sampled images and read them with the real library (harness thread, no seams)
         for i, img in enumerate(materialise):
@@ -198,6 +261,7 @@ def execute(plan: dict, scratch: str, replay: Optional[dict] = None) -> dict:
         V = []
     res = common.assemble(ph, V, True, cfg, {"op": name, "setup": [o["kind"] for o in plan.get("setup", [])],
                                              "events": nev[0], "images": stats["images"], "shadow": sh.stats})
+    res["deviations"] = dict(sim.deviations)
     res["evaluations"] = max(1, stats["images"])
     res["sched_sigs"] = sorted(stats["sigs"])
     res["nontrivial_sigs"] = sorted(stats["sigs"])
